@@ -383,6 +383,7 @@ func (x *g) stmtOf(what string) {
 		k := x.pickKind()
 		e := x.expr(k, 2)
 		name := x.target(k)
+		e = x.noSelfGrowth(name, k, e)
 		x.line("%s = %s", name, e)
 		x.declare(name, k, nil)
 	case "multi":
@@ -444,7 +445,7 @@ func (x *g) stmtOf(what string) {
 		}
 		fv := fs[x.intn(len(fs), "callee")]
 		name := x.target(fv.fn.ret)
-		x.line("%s = %s", name, x.callExpr(fv, 2))
+		x.line("%s = %s", name, x.noSelfGrowth(name, fv.fn.ret, x.callExpr(fv, 2)))
 		x.declare(name, fv.fn.ret, nil)
 	case "expr":
 		if x.chance(0.25, "bare-expr") {
@@ -787,7 +788,7 @@ func (x *g) aug() {
 	case 1: // list name += list (in place; aliases observe it)
 		if own := x.ownVars(KList); len(own) > 0 {
 			v := own[x.intn(len(own), "v")]
-			x.line("%s += %s", v.name, x.expr(KList, 1))
+			x.line("%s += %s", v.name, x.noSelfGrowth(v.name, KList, x.expr(KList, 1)))
 			x.f("inplace-list")
 			return
 		}
@@ -822,7 +823,7 @@ func (x *g) aug() {
 		// list stored in a record field, extended in place through the field
 		if rs := x.visible(KRec); len(rs) > 0 {
 			r := rs[x.intn(len(rs), "r")]
-			x.line("%s.l += %s", r.name, x.expr(KList, 1))
+			x.line("%s.l += %s", r.name, x.noSelfGrowth(r.name, KList, x.expr(KList, 1)))
 			x.f("aug-field")
 			return
 		}
@@ -1102,6 +1103,46 @@ func (x *g) cond(depth int) string {
 	default:
 		return "(" + x.expr(KInt, depth) + " - 1)"
 	}
+}
+
+// mentions reports whether expression text e uses the name (as a whole identifier).
+func mentions(e, name string) bool {
+	for i := 0; i+len(name) <= len(e); i++ {
+		if e[i:i+len(name)] != name {
+			continue
+		}
+		before := i == 0 || !isIdentByte(e[i-1])
+		after := i+len(name) == len(e) || !isIdentByte(e[i+len(name)])
+		if before && after {
+			return true
+		}
+	}
+	return false
+}
+
+func isIdentByte(c byte) bool {
+	return c == '_' || c >= '0' && c <= '9' || c >= 'a' && c <= 'z' || c >= 'A' && c <= 'Z'
+}
+
+// A container or string that grows by a multiple of itself on every execution of a statement (l += l, s = s * 2)
+// doubles in every loop iteration: nested loops then need memory exponential in the nesting. The generator does not
+// write such statements: the right-hand side of a growing assignment never mentions the variable that grows.
+func (x *g) noSelfGrowth(target string, k kind, e string) string {
+	if k == KInt || k == KBool || !mentions(e, target) {
+		return e
+	}
+	x.f("avoided-self-growth")
+	switch k {
+	case KList:
+		return "[1, 2]"
+	case KStr:
+		return "\"s\""
+	case KTuple:
+		return "(1, 2)"
+	case KDict:
+		return "{\"p\": 1}"
+	}
+	return x.exprOf(k, 0)
 }
 
 func (x *g) varOr(k kind, lit func() string) string {
